@@ -271,20 +271,23 @@ def allday_script(rnd, ntasks=3, peers=(1000,)):
 
 
 def colliding_uids(drv, wd, n=150000):
-    """groups of UID strings whose table keys share many low bits (found with the real hash)"""
+    """groups of UID strings whose table keys share many low bits (found with the real hash); the keys themselves are returned too
+    (uid -> key): two strings with the same 32-bit key are the extreme case"""
     out = subprocess.run([drv, wd, 'uids', str(n)], capture_output=True, text=True, timeout=120).stdout
     by = {}
     res = []
+    hx = {}
     for l in out.split('\n'):
         if not l: continue
-        u, h = l.split(); h = int(h)
-        for bits in (22, 20, 16, 12, 8, 4):
+        u, h = l.split(); h = int(h); hx[u] = h
+        for bits in (32, 22, 20, 16, 12, 8, 4):
             by.setdefault((bits, h & ((1 << bits) - 1)), []).append(u)
-    for bits in (22, 20, 16, 12, 8, 4):     # 20 or 22 shared bits: the table of tasks grows to 2^21 or 2^23 slots to tell the two apart
+    for bits in (32, 22, 20, 16, 12, 8, 4):     # 20 or 22 shared bits: the table of tasks grows to 2^21 or 2^23 slots to tell the two apart
         gs = [v for (b, _), v in by.items() if b == bits and len(v) >= 2]
         gs.sort(key=len, reverse=True)
-        res += [(bits, g[:4]) for g in gs[:6]]
-    return res
+        res += [(bits, g[:4]) for g in gs[:6 if bits < 32 else 2]]
+    used = set(u for _, g in res for u in g)
+    return res, {u: h for u, h in hx.items() if u in used}
 
 
 def blocked_uids(drv, wd, rnd, n=150000, k=6):
